@@ -120,6 +120,40 @@ def shrink_cases(draw, tier):
     return cfg
 
 
+@st.composite
+def tight_cases(draw, tier):
+    """ranges imposed as a constraint (tight=True: the solver couples and_(constraints, bounds)), a box-compatible affine
+    tie whose image of an out-of-box candidate is broken again by clipping (x_j = x_i/2 on [0,2]^2: (2.8, 1.4) clips to
+    (2.0, 1.4)), and an optimum outside the box so that Powell's line searches and DE's mutations keep proposing
+    out-of-box candidates: the coupling has to iterate until both hold"""
+    kind = draw(st.sampled_from(['PW', 'PW', 'DE', 'DE2']))
+    cfg = draw(configs(tier, solvers=(kind,), need_constraint=True, allow_reducer=False, symbolic=False, max_dim=3))
+    dim = max(2, cfg['dim']); cfg['dim'] = dim
+    side = float(draw(st.sampled_from([2.0, 4.0, 1.0])))
+    lo = [0.0] * dim; hi = [side] * dim
+    cfg['bounds'] = dict(lo=lo, hi=hi, tight=True, clip=draw(st.sampled_from([None, None, True])))
+    i = draw(st.integers(0, dim - 1)); j = draw(st.integers(0, dim - 1).filter(lambda k_: k_ != i))
+    a_, b_ = draw(st.sampled_from([(0.5, 0.0), (0.25, 0.0), (-1.0, side), (-0.5, side), (0.5, 0.5 * side)]))
+    spec = dict(kind='tie', i=i, j=j, a=a_, b=b_, inplace=draw(st.booleans()), ret=draw(st.sampled_from(['same', 'list', 'array'])))
+    if not lab.box_compatible(spec, lo, hi):
+        spec.update(a=0.5, b=0.0)
+    cfg['constraint'] = spec
+    # the unconstrained optimum lies beyond the upper corner
+    cfg['cost'] = dict(fam='quad', a=[side + draw(st.sampled_from([1.0, 3.0, 0.5])) for _ in range(dim)], w=[1.0] * dim, ret='float')
+    cfg.pop('penalty', None); cfg.pop('extra', None); cfg.pop('kw_first', None)
+    x0 = [draw(st.sampled_from([0.25, 0.5, 0.9])) * side for _ in range(dim)]
+    x0[j] = a_ * x0[i] + b_
+    if kind in ('DE', 'DE2'):
+        cfg['init'] = dict(kind='random', lo=lo, hi=hi) if draw(st.booleans()) else dict(kind='point', x0=x0)
+    else:
+        cfg['init'] = dict(kind='point', x0=x0)
+    cfg['maxiter'] = draw(st.integers(2, 8))
+    cfg['maxfun'] = None
+    cfg['term'] = 'never'
+    return cfg
+
+
+
 def _kf_f8(case, subcheck, detail):
     return bool(case.get('reducer')) and case['reducer']['kind'] in ('sum', 'add2', 'sumsq', 'maxabs') and bool(case.get('penalty')) \
         and subcheck == 'C03.result' and isinstance(detail, dict) and 'objective' in detail
@@ -128,6 +162,8 @@ def _kf_f8(case, subcheck, detail):
 TESTS = [Test('run', run_case, strategy=lambda tier: cases(tier),
               examples={'quick': 8000, 'thorough': 120000}),
          Test('nm_shrink', run_case, strategy=lambda tier: shrink_cases(tier),
-              examples={'quick': 3000, 'thorough': 60000})]
+              examples={'quick': 3000, 'thorough': 60000}),
+         Test('tight_tie', run_case, strategy=lambda tier: tight_cases(tier),
+              examples={'quick': 1600, 'thorough': 30000})]
 
 KNOWN = {'F8-sum-reducer-counts-penalty-per-component': _kf_f8}
